@@ -344,6 +344,10 @@ func docStreams(c *Ctx, o docOpts, f func(stream string, doc []byte)) {
 	for i := 0; i < o.random; i++ {
 		f("random-tokens", randDoc(c.R, tok))
 	}
+	// documents assembled from the extension constructs
+	for i := 0; i < o.random/2; i++ {
+		f("extension-constructs", extDoc(c.R))
+	}
 	// headings and fences with attribute blocks cut off at every point
 	if o.random > 0 {
 		frag := []string{"#id", ".c", "k=v", "k=\"v\"", "k='v'", "k=[1,2]", "k=[1,", "k=", "k", "=", "[", ",", "\"", "}", "{", " ", "data-x=1", "width=3", "1", "-", "k=1.5e", "k=\\\"", "é"}
@@ -439,4 +443,190 @@ func randLineDoc(r *RNG, maxLines int) []byte {
 		}
 	}
 	return b
+}
+
+// ---------- documents built from the extension constructs ----------
+// extDoc assembles tables, footnotes, definition lists, task lists, strikethrough, typographic
+// punctuation, linkifiable text, attribute blocks and CJK text, alone, nested in containers and
+// mixed with core constructs.  No expected output is known: the documents feed the oracles.
+func extInline(r *RNG, depth int) string {
+	leaf := []string{"a", "b c", "x_y", "1", "é", "あ", "ｱ", "\\|", "\\*", "&amp;", "&#65;", "`c|d`", "``", "<b>", "</b>", "<!-- c -->",
+		"http://x.y/z?a=b&c=d", "https://e.f", "www.g.h/i", "ftp://j.k", "m@n.o", "mailto:p@q.r", "<http://s.t>", "<u@v.w>",
+		"\"q\"", "'s'", "--", "---", "...", "<<", ">>", "it's", "'90s", "1/2", "(c)",
+		"[^1]", "[^a]", "[^undefined]", "![^1]", "[^1][^a]", "[ ]", "[x]", "[X]", "~", "~~", ":", "|", "=", "{", "}", "{#i}", "{.c}", "\\\t", "\\ ", "  \n", "\\\n", "\n"}
+	if depth <= 0 || r.Intn(3) == 0 {
+		return r.PickS(leaf)
+	}
+	in := extInline(r, depth-1)
+	if r.Intn(2) == 0 {
+		in += " " + extInline(r, depth-1)
+	}
+	switch r.Intn(10) {
+	case 0:
+		return "~~" + in + "~~"
+	case 1:
+		return "~" + in + "~"
+	case 2:
+		return "*" + in + "*"
+	case 3:
+		return "**" + in + "**"
+	case 4:
+		return "[" + in + "](/u \"t\")"
+	case 5:
+		return "![" + in + "](/i)"
+	case 6:
+		return "\"" + in + "\""
+	case 7:
+		return "'" + in + "'"
+	case 8:
+		return "[" + in + "][r]"
+	}
+	return in
+}
+
+func extBlock(r *RNG, depth int) string {
+	il := func() string { return strings.ReplaceAll(extInline(r, 2), "\n", " ") }
+	switch r.Intn(12) {
+	case 0: // table
+		cols := 1 + r.Intn(4)
+		var sb strings.Builder
+		row := func(n int, f func(int) string) {
+			lead, trail := r.Intn(4) != 0, r.Intn(4) != 0
+			if lead {
+				sb.WriteString("|")
+			}
+			for i := 0; i < n; i++ {
+				if i > 0 {
+					sb.WriteString("|")
+				}
+				sb.WriteString(f(i))
+			}
+			if trail || (n == 1 && !lead) {
+				sb.WriteString("|")
+			}
+			sb.WriteString("\n")
+		}
+		row(cols, func(int) string { return " " + il() + " " })
+		dcols := cols
+		if r.Intn(8) == 0 {
+			dcols = cols + r.Intn(3) - 1
+			if dcols < 1 {
+				dcols = 1
+			}
+		}
+		row(dcols, func(int) string { return r.PickS([]string{"-", "--", ":-", "-:", ":-:", " --- ", ":--:", "-- -", ""}) })
+		for k := r.Intn(4); k > 0; k-- {
+			n := cols
+			if r.Intn(3) == 0 {
+				n = 1 + r.Intn(cols+2)
+			}
+			row(n, func(int) string { return r.PickS([]string{"", " ", il(), " " + il() + " ", "\\|", "`a|b`"}) })
+		}
+		if r.Intn(4) == 0 {
+			sb.WriteString(r.PickS([]string{"|\n", "||\n", "| |\n", "x\n", "> q\n"}))
+		}
+		return sb.String()
+	case 1: // footnote definitions
+		var sb strings.Builder
+		for k := 1 + r.Intn(3); k > 0; k-- {
+			l := r.PickS([]string{"1", "a", "1", "b c", "é", "^", "undefined2"})
+			sb.WriteString("[^" + l + "]: " + il() + "\n")
+			if r.Intn(3) == 0 {
+				sb.WriteString("    " + il() + "\n")
+			}
+			if r.Intn(3) == 0 {
+				sb.WriteString("\n    - " + il() + "\n")
+			}
+			if r.Intn(2) == 0 {
+				sb.WriteString("\n")
+			}
+		}
+		return sb.String()
+	case 2: // definition list
+		var sb strings.Builder
+		sb.WriteString(il() + "\n")
+		if r.Intn(3) == 0 {
+			sb.WriteString(il() + "\n")
+		}
+		if r.Intn(3) == 0 {
+			sb.WriteString("\n")
+		}
+		for k := 1 + r.Intn(3); k > 0; k-- {
+			sb.WriteString(r.PickS([]string{": ", ":   ", ":\t", "  : ", ": \n  "}) + il() + "\n")
+			if r.Intn(3) == 0 {
+				sb.WriteString("\n  " + il() + "\n")
+			}
+		}
+		return sb.String()
+	case 3: // task list
+		var sb strings.Builder
+		for k := 1 + r.Intn(3); k > 0; k-- {
+			sb.WriteString(r.PickS([]string{"- ", "* ", "1. ", "  - "}) + r.PickS([]string{"[ ] ", "[x] ", "[X] ", "[ ]", "[x]a", "[  ] ", "\\[ ] ", "[ ]\t"}) + il() + "\n")
+		}
+		return sb.String()
+	case 4: // heading or fence with attributes
+		attrs := r.PickS([]string{"{#i}", "{.c}", "{#i .c k=v}", "{k=\"v w\"}", "{k='v'}", "{k=1.5}", "{k=[1,2]}", "{k}", "{ }", "{#i #j}", "{id=x}", "{id=\"a\\\" onclick=\\\"b\"}", "{onclick=x}", "{data-x=<}", "{class=\"a&b\"}", "{k=", "{", "{#}", "{.}"})
+		switch r.Intn(4) {
+		case 0:
+			return strings.Repeat("#", 1+r.Intn(6)) + " " + il() + " " + attrs + "\n"
+		case 1:
+			return il() + " " + attrs + "\n" + r.PickS([]string{"===", "---"}) + "\n"
+		case 2:
+			return "```go " + attrs + "\ncode\n```\n"
+		}
+		return "# " + il() + " ## " + attrs + "\n"
+	case 5: // several headings with colliding auto ids
+		var sb strings.Builder
+		for k := 2 + r.Intn(3); k > 0; k-- {
+			sb.WriteString(strings.Repeat("#", 1+r.Intn(3)) + " " + r.PickS([]string{"a", "A", "a-1", "a 1", "", "é", "heading", "#", "a!", "  a  "}) + "\n\n")
+		}
+		return sb.String()
+	case 6: // container around more of the same
+		if depth <= 0 {
+			return il() + "\n"
+		}
+		inner := extBlock(r, depth-1)
+		pre := r.PickS([]string{"> ", ">", "- ", "1. ", "    ", "  "})
+		cont := pre
+		if pre == "- " {
+			cont = "  "
+		} else if pre == "1. " {
+			cont = "   "
+		}
+		lines := strings.SplitAfter(inner, "\n")
+		var sb strings.Builder
+		for i, l := range lines {
+			if l == "" {
+				continue
+			}
+			if i == 0 {
+				sb.WriteString(pre + l)
+			} else {
+				sb.WriteString(cont + l)
+			}
+		}
+		return sb.String()
+	case 7: // CJK paragraph
+		return r.PickS([]string{"あい\nうえ\n", "漢字\nabc\n", "abc\n漢字\n", "ｱｲ\nｳｴ\n", "あ\\ い\n", "Ａ\nｂ\n", "안녕\n하세\n", "あ。\nい\n", "a.\nb\n", "あ\n*い*\n"})
+	default:
+		s := extInline(r, 3)
+		if !strings.HasSuffix(s, "\n") {
+			s += "\n"
+		}
+		return s
+	}
+}
+
+func extDoc(r *RNG) []byte {
+	var sb strings.Builder
+	for k := 1 + r.Intn(4); k > 0; k-- {
+		sb.WriteString(extBlock(r, 2))
+		if r.Intn(5) != 0 {
+			sb.WriteString("\n")
+		}
+	}
+	if r.Intn(3) == 0 {
+		sb.WriteString("\n[r]: /ref 'T'\n")
+	}
+	return []byte(sb.String())
 }
